@@ -16,6 +16,7 @@ pub struct Spec {
     pub id_sec: Vec<u8>,
     pub text_fill: u8,
     pub pad_to: usize,
+    pub vshift: u64,         // virtual address = file offset + vshift (one PT_LOAD covering the file)
 }
 
 impl Default for Spec {
@@ -23,7 +24,7 @@ impl Default for Spec {
         Spec {
             bits64: true, ph_note: true, sec_note: true, text: true, dynamic: true, phdrs: true, shdrs: true,
             soname: Some("libverif.so.3".into()),
-            id_ph: (1..=20).collect(), id_sec: (101..=120).collect(), text_fill: 0x5a, pad_to: 0x3000,
+            id_ph: (1..=20).collect(), id_sec: (101..=120).collect(), text_fill: 0x5a, pad_to: 0x3000, vshift: 0,
         }
     }
 }
@@ -100,7 +101,8 @@ pub fn build(s: &Spec) -> Built {
     w.put("e_type", 3, 2);
     w.put("e_machine", if b64 { 62 } else { 3 }, 2);
     w.put("e_version", 1, 4);
-    w.word("e_entry", text_off as u64, b64);
+    let vs = s.vshift;
+    w.word("e_entry", text_off as u64 + vs, b64);
     w.word("e_phoff", if s.phdrs { phoff as u64 } else { 0 }, b64);
     w.word("e_shoff", if s.shdrs { shoff as u64 } else { 0 }, b64);
     w.put("e_flags", 0, 4);
@@ -117,16 +119,16 @@ pub fn build(s: &Spec) -> Built {
             w.put(&(p.clone() + "p_type"), ty as u64, 4);
             w.put(&(p.clone() + "p_flags"), flags as u64, 4);
             w.put(&(p.clone() + "p_offset"), off, 8);
-            w.put(&(p.clone() + "p_vaddr"), off, 8);
-            w.put(&(p.clone() + "p_paddr"), off, 8);
+            w.put(&(p.clone() + "p_vaddr"), off + vs, 8);
+            w.put(&(p.clone() + "p_paddr"), off + vs, 8);
             w.put(&(p.clone() + "p_filesz"), size, 8);
             w.put(&(p.clone() + "p_memsz"), size, 8);
             w.put(&(p + "p_align"), align, 8);
         } else {
             w.put(&(p.clone() + "p_type"), ty as u64, 4);
             w.put(&(p.clone() + "p_offset"), off, 4);
-            w.put(&(p.clone() + "p_vaddr"), off, 4);
-            w.put(&(p.clone() + "p_paddr"), off, 4);
+            w.put(&(p.clone() + "p_vaddr"), off + vs, 4);
+            w.put(&(p.clone() + "p_paddr"), off + vs, 4);
             w.put(&(p.clone() + "p_filesz"), size, 4);
             w.put(&(p.clone() + "p_memsz"), size, 4);
             w.put(&(p.clone() + "p_flags"), flags as u64, 4);
@@ -142,7 +144,7 @@ pub fn build(s: &Spec) -> Built {
         w.put(&(p.clone() + "sh_name"), name, 4);
         w.put(&(p.clone() + "sh_type"), ty as u64, 4);
         w.word(&(p.clone() + "sh_flags"), flags, b64);
-        w.word(&(p.clone() + "sh_addr"), off, b64);
+        w.word(&(p.clone() + "sh_addr"), if flags & 2 != 0 { off + vs } else { 0 }, b64);
         w.word(&(p.clone() + "sh_offset"), off, b64);
         w.word(&(p.clone() + "sh_size"), size, b64);
         w.put(&(p.clone() + "sh_link"), link as u64, 4);
@@ -168,7 +170,7 @@ pub fn build(s: &Spec) -> Built {
     w.b.extend_from_slice(&sec_note);
     w.b.extend_from_slice(shstr);
     w.pad(dyn_off);
-    let dyns: [(u64, u64); 4] = [(if s.soname.is_some() { 14 } else { 0x6ffffef5 }, soname_idx as u64), (5, dynstr_off as u64), (10, dynstr.len() as u64), (0, 0)];
+    let dyns: [(u64, u64); 4] = [(if s.soname.is_some() { 14 } else { 0x6ffffef5 }, soname_idx as u64), (5, dynstr_off as u64 + vs), (10, dynstr.len() as u64), (0, 0)];
     for (i, (tag, val)) in dyns.iter().enumerate() {
         w.word(&format!("dyn{i}.d_tag"), *tag, b64);
         w.word(&format!("dyn{i}.d_val"), *val, b64);
@@ -212,14 +214,14 @@ pub fn header(b: &[u8]) -> Option<Hdr> {
         Hdr { b64, phoff: rd(b, 28, 4)?, shoff: rd(b, 32, 4)?, phentsize: rd(b, 42, 2)?, phnum: rd(b, 44, 2)?, shentsize: rd(b, 46, 2)?, shnum: rd(b, 48, 2)?, shstrndx: rd(b, 50, 2)? }
     })
 }
-pub struct Ph { pub ty: u64, pub off: u64, pub filesz: u64, pub flags: u64 }
+pub struct Ph { pub ty: u64, pub off: u64, pub filesz: u64, pub flags: u64, pub vaddr: u64 }
 pub fn phdrs(b: &[u8], h: &Hdr) -> Vec<Ph> {
     let mut v = Vec::new();
     if h.phoff == 0 { return v; }
     for i in 0..h.phnum {
         let Some(o) = h.phoff.checked_add(i * h.phentsize) else { break };
-        let p = if h.b64 { (rd(b, o, 4), rd(b, o + 8, 8), rd(b, o + 32, 8), rd(b, o + 4, 4)) } else { (rd(b, o, 4), rd(b, o + 4, 4), rd(b, o + 16, 4), rd(b, o + 24, 4)) };
-        if let (Some(ty), Some(off), Some(filesz), Some(flags)) = p { v.push(Ph { ty, off, filesz, flags }) } else { break }
+        let p = if h.b64 { (rd(b, o, 4), rd(b, o + 8, 8), rd(b, o + 32, 8), rd(b, o + 4, 4), rd(b, o + 16, 8)) } else { (rd(b, o, 4), rd(b, o + 4, 4), rd(b, o + 16, 4), rd(b, o + 24, 4), rd(b, o + 8, 4)) };
+        if let (Some(ty), Some(off), Some(filesz), Some(flags), Some(vaddr)) = p { v.push(Ph { ty, off, filesz, flags, vaddr }) } else { break }
     }
     v
 }
@@ -304,13 +306,15 @@ pub fn oracle_soname(b: &[u8]) -> Option<Vec<u8>> {
         }
         if terminated { (so, st, sz) } else { (None, None, None) }
     };
-    for p in phdrs(b, &h) {
-        if p.ty == 2 {
-            let dy = b.get(p.off as usize..(p.off as usize).checked_add(p.filesz as usize)?)?;
-            if let (Some(so), Some(st), Some(sz)) = scan(dy) {
-                if so < sz { return cstr(b, st.checked_add(so)?).map(|s| s.to_vec()); }
+    // DT_STRTAB is a virtual address: in a file it is translated through the PT_LOAD segment that contains it
+    let phs = phdrs(b, &h);
+    let file_off = |va: u64| phs.iter().find(|p| p.ty == 1 && p.vaddr <= va && va - p.vaddr < p.filesz).and_then(|p| (va - p.vaddr).checked_add(p.off));
+    if let Some(p) = phs.iter().find(|p| p.ty == 2) {
+        let dy = (p.off as usize).checked_add(p.filesz as usize).and_then(|e| b.get(p.off as usize..e));
+        if let Some((Some(so), Some(st), Some(sz))) = dy.map(scan) {
+            if so < sz {
+                if let Some(s) = file_off(st).and_then(|o| o.checked_add(so)).and_then(|o| cstr(b, o)) { return Some(s.to_vec()); }
             }
-            break;
         }
     }
     let shs = shdrs(b, &h);
